@@ -645,17 +645,23 @@ class AsyncFIXConnection:
         Args:
             resend_msg: ResendRequest(35=2) FIXMessage
         """
+        assert resend_msg.msg_type == FMsg.RESENDREQUEST
+        try:
+            begin_seq_no = int(resend_msg[FTag.BeginSeqNo])
+            end_seq_no = int(resend_msg[FTag.EndSeqNo])
+        except Exception:
+            # malformed request (tags are missing or not a number), nothing to resend
+            self.log.warning(f"Malformed ResendRequest ignored: {resend_msg}")
+            return
+
         if self._connection_state != ConnectionState.RESENDREQ_AWAITING:
             await self._state_set(ConnectionState.RESENDREQ_HANDLING)
 
-        assert resend_msg.msg_type == FMsg.RESENDREQUEST
         assert self._connection_state in {
             ConnectionState.RESENDREQ_HANDLING,
             ConnectionState.RESENDREQ_AWAITING,
         }
 
-        begin_seq_no = int(resend_msg[FTag.BeginSeqNo])
-        end_seq_no = int(resend_msg[FTag.EndSeqNo])
         last_sent = self._session.next_num_out - 1
         if end_seq_no == 0 or end_seq_no > last_sent:
             end_seq_no = last_sent
